@@ -97,19 +97,89 @@ def run(tier, seed):
     # ---- determinism
     progkeys = [k for k, f in prog.functions.items() if '/programs/' in f['file']]
     ent = [s for s in statics.effect_sites(prog, prog.functions.keys()) if s[3] == 'entropy']
+    from ..rules import streams
+    chs = streams.chains(dr)
+    comp = [c for c in chs if any(astu.strip_casts(o)['k'] == 'Str' and '@status' in astu.strip_casts(o).get('v', '') for o in c['ops'])]
+    if not comp:
+        raise AnalysisBroken('driver::run: the insertion chain that writes the `@status` marker was not found')
+    companion = comp[0]['root']
+    # streams whose text ends in the companion file: the companion itself and string buffers inserted into it with .str()
+    feeds = {companion[1]: companion}
+    grew = True
+    while grew:
+        grew = False
+        for c in chs:
+            if c['root'][1] in feeds:
+                for o in c['ops']:
+                    r2 = streams.str_source(o)
+                    if r2 is not None and r2[1] not in feeds:
+                        feeds[r2[1]] = r2
+                        grew = True
+    evroots = {streams.root_of(c['args'][0])[1] for c in astu.calls(dr['body']) if c['k'] == 'MCall' and
+               c['callee']['qn'] == 'bxdecay0::event::store' and c.get('args')}
     for fn, q, line, kind, c in ent:
         okt = False
         why = None
-        if q in ('time', 'std::time') and fn is dr or fn['qn'] == dr['qn']:
-            tv_ = [n for n in F.nodes(kind='assign') if any(x[0] == 'call' and x[1] in ('time', 'std::time') for x in ir.subexprs(n.stmt[2]))]
-            if tv_:
-                v = tv_[0].stmt[1][1]
-                users = [n for n in F.g.nodes if n.id != tv_[0].id and n.stmt is not None and v in txt(n)]
-                okt = all(n in ios and 'finfo' in txt(n) for n in users) and bool(users)
+        if q in ('time', 'std::time') and (fn is dr or fn['qn'] == dr['qn']):
+            tvar = [v for n in astu.walk(dr['body']) if n['k'] == 'Decl' for v in n['vars'] if 'init' in v and
+                    any(x.get('callee', {}).get('qn') in ('time', 'std::time') for x in astu.calls(v['init']))]
+            if len(tvar) == 1:
+                vid = tvar[0]['id']
+                refs = [x for x in astu.walk(dr['body']) if x['k'] == 'Ref' and x.get('id') == vid]
+                direct = {}
+                for ch in chs:
+                    for o in ch['ops']:
+                        o2 = astu.strip_casts(o)
+                        if o2['k'] == 'Ref' and o2.get('id') == vid:
+                            direct[id(o2)] = ch
+                stray = [x for x in refs if id(x) not in direct]
+                tainted = {ch['root'][1]: ch['root'] for ch in direct.values()}
+                grew = True
+                while grew:
+                    grew = False
+                    for ch in chs:
+                        for o in ch['ops']:
+                            r2 = streams.str_source(o)
+                            if r2 is not None and r2[1] in tainted and ch['root'][1] not in tainted:
+                                tainted[ch['root'][1]] = ch['root']
+                                grew = True
+                bad = [r for k_, r in tainted.items() if not (k_ in feeds or r[2] in streams.LOG_STREAMS or 'stringstream' in r[3])
+                       or k_ in evroots]
+                okt = bool(refs) and not stray and not bad
                 if not okt:
-                    why = ['`%s` is also used at line(s) %s' % (v, [n.line for n in users if not (n in ios and 'finfo' in txt(n))])]
+                    why = ['`%s` is used outside an insertion at line(s) %s' % (tvar[0]['name'], [x.get('l') for x in stray])] if stray else \
+                          ['the time value reaches the stream(s) %s' % [r[2] for r in bad]]
         rep.add('DETERMINISM', '%s:%s' % (fn['name'], q), where(fn, line),
-                '%s: the value of %s() only goes to the companion file' % (fn['name'], q), okt, why)
+                '%s: the value of %s() only goes to the companion file (directly, through a string buffer, or to the log)' % (fn['name'], q), okt, why)
+    # ---- the companion reports the effective settings: real-valued settings are written with the precision of the event file
+    rep.rule('COMPANION.precision', 'every floating-point value inserted into the companion file (directly or through a string buffer '
+             'whose text is inserted into it) goes through a stream on which precision(>= 15) was set before: the reported settings '
+             'reproduce the run (default formatting keeps 6 significant digits)')
+    precs = streams.precision_calls(dr)
+    nfl = 0
+    for ch in chs:
+        if ch['root'][1] not in feeds:
+            continue
+        inchain = None
+        for o in ch['ops']:
+            sp = streams.setprecision_of(o)
+            if sp is not None:
+                inchain = sp
+                continue
+            if not streams.is_floating(o):
+                continue
+            nfl += 1
+            before = [(l, n_) for r, n_, l, node in precs if r[1] == ch['root'][1] and l is not None and l < ch['l'] and
+                      _unconditional(dr, node)]
+            last = max(before)[1] if before else None
+            eff = inchain if inchain is not None else last
+            ok = eff is not None and eff >= 15
+            rep.add('COMPANION.precision', '%s' % astu.src(o)[:50], where(dr, ch['l']),
+                    '`%s << %s` is formatted with at least 15 significant digits' % (ch['root'][2], astu.src(o)[:50]), ok,
+                    None if ok else ['no `%s.precision(N >= 15)` (nor std::setprecision) is in force at this insertion (%s): the value '
+                                     'is written with %s significant digits, the run uses the full value'
+                                     % (ch['root'][2], 'stream declared at %s' % ch['root'][1], 'the default 6' if eff is None else eff)])
+    rep.floor('COMPANION.precision', nfl, 5)
     eng = [v for n in astu.walk(dr['body']) if n['k'] == 'Decl' for v in n['vars'] if 'random_engine' in v['ty'] or 'mt19937' in v['ty']]
     okeng = len(eng) == 1 and 'init' in eng[0] and [astu.src(a) for a in eng[0]['init'].get('args', [])] == ['_config_.seed']
     rep.add('DETERMINISM', 'engine-seed', where(dr, eng[0]['l'] if eng else dr['l']),
@@ -290,3 +360,11 @@ def _nat(F, tail, head):
                 body.add(p)
                 st.append(p)
     return body
+
+
+def _unconditional(fn, node):
+    """the call is a statement of the function's top-level block (not under an if / loop)"""
+    for st in fn['body'].get('s', []):
+        if st['k'] == 'Expr' and any(x is node for x in astu.walk(st)):
+            return True
+    return False
